@@ -165,7 +165,7 @@ def run(ck):
                 one("remote_value", desc + ".set(response)", lambda rv=rv, v=v: rv.set(v, response=True), v, wants_num)
         # ---- B. helpers without and with a DPT, MCP write tool
         for helper, hname in ((group_value_write, "group_value_write"), (group_value_response, "group_value_response")):
-            for v in pool + [DPTArray((1, 2)), DPTBinary(1), DPTArray((300,)), DPTArray(())]:
+            for v in pool + [DPTArray((1, 2)), DPTBinary(1), DPTArray((300,)), DPTArray(()), DPTArray((1,) * 253), DPTArray((1,) * 254), DPTArray((0,) * 300)]:
                 one("helper_raw", hname + "(raw)", lambda v=v, helper=helper: helper(xknx, "1/2/3", v), v, {"int", "list"})
             for t in numeric_types + ["string", "latin_1", "switch", "hvac_mode", "color_rgb", "time", "date", "datetime", "9.001", "5.001", "1.001", "20.102"]:
                 for v in (pool if ck.tier != "quick" else pool[::2]):
